@@ -483,6 +483,13 @@ pub fn alphabet() -> Vec<Sym> {
     v.push(s("AddBackend(c1,b1@1,rich)", RequestType::AddBackend(bk_rich)));
     v.push(s("AddBackend(c1,b1@2)", RequestType::AddBackend(bk("b1", b2()))));
     v.push(s("AddBackend(c1,b2@1)", RequestType::AddBackend(bk("b2", b1()))));
+    // the same backends turned into backups (an upsert changing nothing else)
+    let mut bk_backup1 = bk("b1", b1());
+    bk_backup1.backup = Some(true);
+    let mut bk_backup2 = bk("b1", b2());
+    bk_backup2.backup = Some(true);
+    v.push(s("AddBackend(c1,b1@1,backup)", RequestType::AddBackend(bk_backup1)));
+    v.push(s("AddBackend(c1,b1@2,backup)", RequestType::AddBackend(bk_backup2)));
     let rb = |id: &str, addr: SocketAddress| RemoveBackend {
         cluster_id: "c1".to_owned(),
         backend_id: id.to_owned(),
